@@ -31,7 +31,8 @@ Detect(s) ==
   ELSE IF s.t = "sco" THEN "2.1"
   ELSE "2.0"
 
-IdClasses == {"uuid4", "uuid1", "uuid5", "nil", "badvariant", "garbage", "noid"}
+\* ("type_of_other_version": a reference whose type exists in the OTHER spec version only -- for the version in force that is a reference to a custom type, never accepted strictly)
+IdClasses == {"uuid4", "uuid1", "uuid5", "nil", "badvariant", "garbage", "noid", "type_of_other_version"}
 \* STIX 2.0: UUIDv4 only; STIX 2.1: any RFC 4122 variant UUID; nothing else, ever
 IdAccept(v, idc) == idc \in {"uuid4", "noid"} \/ (v = "2.1" /\ idc \in {"uuid1", "uuid5"})
 
